@@ -44,6 +44,17 @@ Theorem c16_web_resp_text : forall evs t,
     Some (concat (datas evs) ++ trailers_frame t).
 Proof. exact resp_text. Qed.
 
+(* Body::is_end_stream / size_hint of the translated body are the inner body's (call.rs
+   is_end_stream, size_hint).  A hyper-like consumer - it asks is_end_stream() before the first
+   poll and after every data frame and stops polling when the answer is true - over an inner
+   body that honours the http_body contract (true only after its trailers were yielded, as
+   tonic's EncodeBody): every data item AND the trailers frame are taken before it stops *)
+Theorem c16_web_resp_hyper : forall e evs t,
+  only_data_or_pending evs = true -> nlen (encode_trailers t) <= U32_MAX ->
+  hyper_encode 1 e (evs ++ [EvTrailers t]) =
+  (map (fun d => SData (encode_bytes e d)) (datas evs) ++ [SData (encode_bytes e (trailers_frame t))], true).
+Proof. exact resp_hyper. Qed.
+
 (* "decodes to the identical message bytes followed by exactly one trailers frame listing every
    trailer", judged by the grpc-web client decoder of C17 under ANY re-chunking of the emitted
    bytes by the transport *)
@@ -156,6 +167,7 @@ Proof. split; vm_compute; reflexivity. Qed.
 Print Assumptions c16_web_resp_binary.
 Print Assumptions c16_web_resp_text.
 Print Assumptions c16_web_resp_binary_decodes.
+Print Assumptions c16_web_resp_hyper.
 Print Assumptions c16_web_req_binary.
 Print Assumptions c16_web_req_text.
 Print Assumptions c16_web_kind_table.
